@@ -83,8 +83,8 @@ def teardown_shard(ctx):
         ctx.count(k, v)
 
 
-NB = {"quick": 160, "thorough": 2400}
-NA = {"quick": 5000, "thorough": 110000}
+NB = {"quick": 200, "thorough": 3000}
+NA = {"quick": 20000, "thorough": 300000}
 CTX_PER_CASE = 5
 
 
@@ -394,7 +394,7 @@ def case_B(ctx, n):
     host_bind = M.gen_context(rng, host, 1.0)
     for s in M.SPECIALS:     # keep one interpretation per sentinel: no outer binding of the loop's own names
         host_bind.pop(s, None)
-    hshape = M.shape(host["__main__"])
+    hshape = tuple(sorted(M.construct_kinds(host)))   # coarse on purpose: 429 combinations per host
     for ci, (loc, form, sk) in enumerate(COMBOS):
         crng = ctx.rng("B", n, ci)
         T, make_bind, construct, sig = build_B(crng, host, host_bind, loc, form, sk)
